@@ -49,6 +49,7 @@ type Target struct {
 	Exts     []ExtVar
 
 	files *protoregistry.Files
+	paths []string // the files of FDSet, in order
 	file  protoreflect.FileDescriptor
 	exts  *protoregistry.Types
 }
@@ -72,6 +73,10 @@ func (t *Target) init() error {
 		return err
 	}
 	t.files = files
+	t.paths = nil
+	for _, f := range set.File {
+		t.paths = append(t.paths, f.GetName())
+	}
 	last := set.File[len(set.File)-1]
 	fd, err := files.FindFileByPath(last.GetName())
 	if err != nil {
@@ -124,6 +129,14 @@ func (t *Target) extTypes() *protoregistry.Types {
 	}
 	addExts(t.file.Extensions())
 	walkMsgs(t.file.Messages())
+	// … and those declared in the imported files of the set (a package split over several .proto files whose
+	// generated code knows the extensions of its own file)
+	for _, path := range t.paths {
+		if fd, err := t.files.FindFileByPath(path); err == nil && fd.Path() != t.file.Path() {
+			addExts(fd.Extensions())
+			walkMsgs(fd.Messages())
+		}
+	}
 	return types
 }
 
